@@ -115,7 +115,7 @@ CHECKS = {
    technique="TLA+ slot/permutation spec; TLC-enumerated cases replayed through the real parser and printer, judged by a TLA+ trace spec"),
  "C13": dict(
    level="exploration", design="§5 C13, §10",
-   text="Rewrites.tla models the eight meaning-preserving rewrites as actions on a small program and checks the stutter property (verdict, and behaviour when "
+   text="Rewrites.tla models the nine meaning-preserving rewrites (rename, reorder toplevels / members, parenthesise, wrap in block, annotate let, annotate lambda parameters, explicit type arguments, split module) as actions on a small program and checks the stutter property (verdict, and behaviour when "
         "accepted) over chains of up to 3; the harness applies the rewrites textually from AST locations to accepted and rejected programs, confirms "
         "structurally that exactly the intended edit happened, compiles and runs original and rewritten programs on both back ends, and RewritesTrace.tla "
         "(extending Observations.tla's notion of implementation-defined runs) checks the action property between consecutive steps of every recorded history.",
